@@ -33,6 +33,7 @@ def run(ctx):
     incr.run_dd_restat(ctx, "C01", n // 10)
     incr.run_dd_deps(ctx, "C01", n // 8)
     incr.run_dd_behind_clean(ctx, "C01", n // 12)
+    incr.run_rsp_kept(ctx, "C01", n // 10)
     incr.run_late_deps(ctx, "C01", n // 6)
     # self-regenerating manifests: build.ninja is a generator output selected by a config file
     incr.run_regen(ctx, "C01", n // 10, size_range=(2, 6))
